@@ -57,4 +57,9 @@ RunScan(D, st, DupScope) ==
   ELSE IF st.i > Len(D) THEN DensityStep(st)
   ELSE RunScan(D, ScanStep(D, st, DupScope), DupScope)
 
-=============================================================================
+(* ---- what the typed errors say (Display), alone and rendered against a path; bindings are decimal strings here ---- *)
+ErrorText(res) ==
+  IF res.kind = "dup" THEN "duplicate binding found with index `" \o res.binding \o "`"
+  ELSE "bind groups are non-consecutive or do not start from 0"
+ErrorTextWithPath(res, path) == path \o ": " \o ErrorText(res)
+=========================================================================
